@@ -141,6 +141,7 @@ fn emit_case<W: Write>(c: &mut Cases<W>, rng: &mut Rng, i: usize, srcs: &Vec<Vec
     c.checkpoint();
     // path 1: stream
     let mf = LoggingConcat { calls: RefCell::new(Vec::new()), fail_at, sort: false };
+    let after: RefCell<(Vec<(Vec<u8>, Vec<u8>)>, String)> = RefCell::new((Vec::new(), "-".into()));
     let res = catch(|| -> Result<Vec<(Vec<u8>, Vec<u8>)>, (Vec<(Vec<u8>, Vec<u8>)>, String)> {
         // the three equivalent ways of handing the sources to the builder, in turn
         let cursors = || files.iter().map(|f| Reader::new(Cursor::new(&f[..])).unwrap().into_cursor().unwrap());
@@ -176,7 +177,20 @@ fn emit_case<W: Write>(c: &mut Cases<W>, rng: &mut Rng, i: usize, srcs: &Vec<Vec
             match it.next() {
                 Ok(Some((k, v))) => out.push((k.to_vec(), v.to_vec())),
                 Ok(None) => break,
-                Err(e) => return Err((out, err_class(&e))),
+                Err(e) => {
+                    // the caller may go on after an error: what the iterator yields then, and what it hands
+                    // to the merge function, is recorded and checked against the sources
+                    let cls = err_class(&e);
+                    let mut a = after.borrow_mut();
+                    for _ in 0..200 {
+                        match it.next() {
+                            Ok(Some((k, v))) => a.0.push((k.to_vec(), v.to_vec())),
+                            Ok(None) => { a.1 = "ok".into(); break; }
+                            Err(e2) => { a.1 = format!("err {}", err_class(&e2)); break; }
+                        }
+                    }
+                    return Err((out, cls));
+                }
             }
             if out.len() > 1_000_000 {
                 return Err((out, "runaway".into()));
@@ -193,8 +207,20 @@ fn emit_case<W: Write>(c: &mut Cases<W>, rng: &mut Rng, i: usize, srcs: &Vec<Vec
         c.line(&format!("out {} {}", hex(k), hex(v)));
     }
     c.line(&format!("outend {}", end));
-    for (k, vs) in mf.calls.borrow().iter() {
-        c.line(&format!("call {} {}", hex(k), vs.iter().map(|v| hex(v)).collect::<Vec<_>>().join(",")));
+    let ncalls_at_end = match fail_at { Some(j) if end.starts_with("err") => j + 1, _ => usize::MAX };
+    for (ci, (k, vs)) in mf.calls.borrow().iter().enumerate() {
+        let tag = if ci >= ncalls_at_end { "acall" } else { "call" };
+        c.line(&format!("{} {} {}", tag, hex(k), vs.iter().map(|v| hex(v)).collect::<Vec<_>>().join(",")));
+    }
+    if end == "panic" && fail_at.is_some() {
+        // a panic while continuing after the error is reported as such
+        c.line("aend panic");
+    } else if after.borrow().1 != "-" {
+        for (k, v) in &after.borrow().0 {
+            c.line(&format!("aout {} {}", hex(k), hex(v)));
+        }
+        c.line(&format!("aend {}", after.borrow().1));
+        c.bump("continued_after_error", 1);
     }
     // path 2: into a writer
     let mf2 = LoggingConcat { calls: RefCell::new(Vec::new()), fail_at, sort: false };
